@@ -931,6 +931,11 @@ def day_block(r, day, foods, envelope=True):
 PERDAY = [("reg", {}), ("reg", dict(shorten=True)), ("reg", dict(template="left-aligned")), ("reg", dict(old=True)), ("csv-log", {}), ("print", {}), ("reg", dict(single_food="e")), ("reg", dict(single_element="kcal"))]
 PERIOD = [("bal", {}), ("bal", dict(single_element="kcal")), ("totals", {}), ("quantity", {})]
 
+REGEX_RAW_BYTES = False     # set once Model/Reporters.v sends patterns that are not valid UTF-8 (or hold U+FFFD) through the regular-expression path (WP29)
+REGEXES = ["^br", "ea$", "b.*d", "[a-c]+", "tea|bread", "(meat)/(veal|pork)", "\\d+g", "(?i)BREAD", "e{2,3}", "a{2}", "^[^/]+$", "^drinks/.*/tea$", "[[:alpha:]]+", "\\pL", "(?i:TEA)|water",
+           "[", "(", "*a", "a**", "\\", "a{1001}", "(?P<n>a)", "\\Qa.b\\E", "x?y*z+", ".", "^$", "é", "[^a-z/]", "a|", "()", "\\.", "\\bsweets\\b", "^(vegetables|sweets)/", "-", "a-very.*fit$",
+           ] + ([b"\xff".decode("utf-8", "surrogateescape"), b"a\xef\xbf\xbdb".decode(), b"te\xc3".decode("utf-8", "surrogateescape")] if REGEX_RAW_BYTES else [])
+
 def check_C12(ctx):
     r = ctx.rng
     book = b"bread:\n  kcal: 250\n  fat: 1\ntea:\n  kcal: 2\nmeat/veal:\n  kcal: 100\n  prot: 20\nmeat/pork:\n  kcal: 0.5\n"
@@ -948,7 +953,9 @@ def check_C12(ctx):
         l1, l2 = b"".join(blocks[:cut]), b"".join(blocks[cut:])
         ctx.nontriv(l1 + b"|" + l2); ctx.tally("blocks", nb)
         if k < 1: ctx.sample(dict(L1=l1, L2=l2))
-        for cmd, kw in (PERDAY + PERIOD if ctx.tier == "thorough" else r.sample(PERDAY, 3) + r.sample(PERIOD, 2)):
+        # the single-food register with a regular expression (anchors, classes, alternation, repetition, case folding; ill-formed ones; raw bytes)
+        rx = r.choice(REGEXES)
+        for cmd, kw in ((PERDAY + PERIOD if ctx.tier == "thorough" else r.sample(PERDAY, 3) + r.sample(PERIOD, 2)) + [("reg", dict(single_food=rx))]):
             if cmd in ("reg", "bal", "csv-log", "print", "totals", "quantity") and r.random() < 0.4:
                 dd = r.choice(days); kw = dict(kw, **{r.choice(["g_end", "g_begin"]): "%04d/%02d/%02d" % dd})
             tri = []
@@ -961,7 +968,7 @@ def check_C12(ctx):
         if not (x["status"] == y["status"] == z["status"] == "ok"): continue
         rep = dict(kind="cli", case=cases[ab], impl=z, L1_case=cases[a], L1_impl=x, L2_case=cases[b2], L2_impl=y)
         kw0 = {k2: v for k2, v in kw.items() if k2 not in ("g_end", "g_begin")}
-        if any(cmd == c and kw0 == k2 for c, k2 in PERDAY):
+        if any(cmd == c and kw0 == k2 for c, k2 in PERDAY) or (cmd == "reg" and set(kw0) == {"single_food"}):
             if x["stdout"] + y["stdout"] != z["stdout"]:
                 ctx.violation("C12:per-day-report-not-concatenation:" + cmd, "%s %r: report of L1++L2 is not report(L1) ++ report(L2): %r / %r" % ((cmd, kw) + first_diff(x["stdout"] + y["stdout"], z["stdout"])), rep)
         else:
